@@ -143,6 +143,7 @@ def simp(z):
     return z
 
 
+PENDING_FACTS = []     # facts about freshly introduced model constants; drained into the state by the engine
 _fresh_counter = [0]
 
 
@@ -177,6 +178,8 @@ def type_of(v):
             if t is None:
                 raise Unsupported('heterogeneous list literal')
         return SeqT(t)
+    if isinstance(v, MRev):
+        return type_of(v.inner)
     raise Unsupported('no static type for %r' % (v,))
 
 
@@ -270,6 +273,15 @@ def pack(v, t):
             units = [z3.Unit(pack(i, t.elem)) for i in v.items]
             return units[0] if len(units) == 1 else z3.Concat(*units)
         raise Unsupported('list where %s is expected' % (t,))
+    if isinstance(v, MRev):
+        # reversed(seq): assumed builtin contract, same length, mirrored elements
+        inner = pack(v.inner, t)
+        r = z3.Const(fresh_name('reversed'), sort_of(t))
+        PENDING_FACTS.append(z3.Length(r) == z3.Length(inner))
+        i = z3.Int(fresh_name('ri'))
+        n = z3.Length(inner)
+        PENDING_FACTS.append(z3.ForAll([i], z3.Implies(z3.And(i >= 0, i < n), r[i] == inner[n - 1 - i])))
+        return r
     if isinstance(v, MFrozen):
         if isinstance(t, SetT):
             arr = z3.K(sort_of(t.elem), False)
